@@ -15,7 +15,7 @@ def main():
         if not os.path.exists(mp):
             continue
         m = json.load(open(mp))
-        caught = "; ".join("**%s**: %s" % (k, v) for k, v in (m.get("caught_by") or {}).items()) or "not caught"
+        caught = "; ".join("**%s**: %s" % (k, v) for k, v in (m.get("caught_by") or {}).items()) or ("**not caught** - " + m.get("not_caught_reason", ""))
         rows.append("| %s | %s | %s | %s | %s | %s |" % (name, m.get("property"), m.get("summary", "").replace("|", "/"), m.get("needs", "").replace("|", "/"), caught.replace("|", "/"), (m.get("missed_before") or "-").replace("|", "/")))
     txt = HEAD + "\n" + (
         "Each change below was written by an independent sub-agent that saw only the property text and a scratch worktree of the library (nothing of /verif), "
